@@ -313,9 +313,11 @@ def setup(scratch):
     fb = _mkrepo(os.path.join(scratch, "fallback"), "2a")
     fb.fetch(_state["src-gc"], revision_id=b"r1")
     _state["fallback"] = os.path.join(scratch, "fallback")
+    _state["live"] = True
 
 
 def teardown():
+    _state["live"] = False
     for k in ("src-gc", "src-knit"):
         try:
             _state[k].unlock()
@@ -509,7 +511,24 @@ class _Run:
         return trace
 
 
+def _ensure_setup():
+    """The framework shrinks / replays after teardown(): build a private scratch area then (removed at exit)."""
+    d = _state.get("dir")
+    if d and os.path.isdir(d) and _state.get("live"):
+        return
+    import atexit
+    import tempfile
+    late = tempfile.mkdtemp(prefix="verif-C06-late-", dir=os.environ.get("TMPDIR") or "/tmp")
+
+    def _cleanup():
+        teardown()
+        shutil.rmtree(late, ignore_errors=True)
+    atexit.register(_cleanup)
+    setup(late)
+
+
 def impl(inp):
+    _ensure_setup()
     out = {}
     for which in ("ops", "twin"):
         if inp.get(which) is None:
@@ -800,7 +819,7 @@ def corpus():
 
 
 def cases(rng, tier):
-    n_rand, n_twin = (420, 120) if tier == "quick" else (5000, 1400)
+    n_rand, n_twin = (420, 120) if tier == "quick" else (2600, 700)
     fm = ["2a", "2a-stacked", "knit"]
     for i in range(n_rand):
         fmt = fm[i % 3]
